@@ -55,6 +55,49 @@ impl FunctionDefinition for Boom {
     }
 }
 
+
+/// Oracle for `wirefilter_get_filter_hash`.  The statements (C07, C20) only say that the hash is a function of the
+/// JSON (equal JSON, equal hash; the same for every spelling); the code documents it as the FNV-1a hash of the JSON
+/// text.  The harness calibrates once, on three filters parsed first thing through the C API: if the documented
+/// algorithm is in force, every later hash must be FNV-1a of the JSON (which catches any dependence on something else:
+/// handle addresses, call history, memo tables); if the algorithm was replaced by another one - a change that keeps
+/// the statements true - only functional consistency is demanded (the same JSON never gets two hashes).
+pub fn c_hash_ok(json: &[u8], got: u64) -> bool {
+    use std::collections::HashMap;
+    use std::hash::Hasher;
+    use std::sync::{Mutex, OnceLock};
+    static IS_FNV: OnceLock<bool> = OnceLock::new();
+    static SEEN: OnceLock<Mutex<HashMap<Vec<u8>, u64>>> = OnceLock::new();
+    let fnv_of = |b: &[u8]| {
+        let mut h = fnv::FnvHasher::default();
+        h.write(b);
+        h.finish()
+    };
+    let is_fnv = *IS_FNV.get_or_init(|| {
+        let mut b = wirefilter::SchemeBuilder::new();
+        b.add_field("calib.n", Type::Int).unwrap();
+        b.add_field("calib.s", Type::Bytes).unwrap();
+        let fs = ffi::Scheme::from(b.build());
+        ["calib.n == 1", "calib.s == \"x\" or calib.n in {2 3..4}", "not (calib.n < 5 and calib.s contains \"ab\")"].iter().all(|t| {
+            let r = ffi::wirefilter_parse_filter(&fs, t.as_ptr().cast(), t.len());
+            match r.ast {
+                None => false,
+                Some(a) => {
+                    let sr = ffi::wirefilter_serialize_filter_to_json(&a);
+                    let j = crate::ffi_bytes(sr.json.ptr as *const u8, sr.json.len).to_vec();
+                    let h = ffi::wirefilter_get_filter_hash(&a);
+                    ffi::wirefilter_free_string(sr.json);
+                    ffi::wirefilter_free_parsed_filter(a);
+                    !j.is_empty() && h.hash == fnv_of(&j)
+                }
+            }
+        })
+    });
+    let mut seen = SEEN.get_or_init(Default::default).lock().unwrap_or_else(|e| e.into_inner());
+    let first = *seen.entry(json.to_vec()).or_insert(got);
+    first == got && (!is_fnv || got == fnv_of(json))
+}
+
 pub fn last_error() -> Value {
     let p = ffi::wirefilter_get_last_error();
     if p.is_null() {
@@ -275,10 +318,7 @@ impl Session {
             events.push(e2);
             let b3 = last_error();
             let hr = ffi::wirefilter_get_filter_hash(ast);
-            use std::hash::Hasher;
-            let mut h = fnv::FnvHasher::default();
-            h.write(rj.as_bytes());
-            let eqh = hr.hash == h.finish();
+            let eqh = c_hash_ok(rj.as_bytes(), hr.hash);
             let e3 = self.ev("filter_hash", b3, Self::status(&hr.status), "ok", eqh, None, json!({}));
             events.push(e3);
         }
